@@ -196,7 +196,7 @@ def san_env(flavour, rundir, tag):
     logp = os.path.join(rundir, "san.%s" % tag)
     env["ASAN_OPTIONS"] = "abort_on_error=1:detect_leaks=0:handle_abort=0:allocator_may_return_null=1:log_path=%s:detect_stack_use_after_return=0" % logp
     env["UBSAN_OPTIONS"] = "print_stacktrace=1:halt_on_error=1:abort_on_error=1:log_path=%s" % logp
-    env["TSAN_OPTIONS"] = "halt_on_error=0:log_path=%s:second_deadlock_stack=1:history_size=4" % logp
+    env["TSAN_OPTIONS"] = "halt_on_error=0:exitcode=0:log_path=%s:second_deadlock_stack=1:history_size=5" % logp
     return env, logp
 
 
